@@ -472,6 +472,10 @@ func containsAny(xs []string, sub string) bool {
 
 // ---------------------------------------------------------------- C16: Dict
 
+// a value that is one qualified symbol V<n>: compared without its qualifier (the name a path gets
+// may depend on the order of registration)
+var qualValRe = regexp.MustCompile(`^[\pL_][\pL\pN_]*\.(V\d+)$`)
+
 func genDictCase(cx *CheckCtx, i int, allowQualKeys bool) *Case {
 	r := cx.R.Fork()
 	pool := sanePool(r, 3)
@@ -486,10 +490,18 @@ func genDictCase(cx *CheckCtx, i int, allowQualKeys bool) *Case {
 	}
 	c := &Case{ID: fmt.Sprintf("%s-%d-%d", cx.Prop, cx.Seed, i)}
 	c.Ops = append(c.Ops, Op{Kind: OpFile, F: 0, Str: []string{"new", "", "p"}})
+	// (C16 only, sometimes: only SOME of the competing paths are referenced before the Dict, and
+	// values reference them too — which path gets which name then depends on the order in which
+	// the pairs are rendered (known finding D7, decided by C07), but whatever names result, the
+	// pairs must be in the order of the PRINTED keys, each value beside its own key)
+	partial := allowQualKeys && cx.Prop == "C16" && len(pool.Paths) >= 2 && strings.HasPrefix(pool.Paths[0], "h0.com/x/") && r.Chance(50)
 	if allowQualKeys {
 		// reference every pool path before the Dict so that key rendering registers nothing new
 		var refs []Arg
 		for k, p := range pool.Paths {
+			if partial && r.Chance(60) {
+				continue
+			}
 			refs = append(refs, st(Qual{Path: p, Name: qName(k)}))
 		}
 		c.Ops = append(c.Ops, Op{Kind: OpFAdd, F: 0, Args: []Arg{st(kw("Var"), id("_"), op("="), &Grp{Api: "Index"}, kw("Any"), &Grp{Api: "Values", Args: refs})}})
@@ -541,6 +553,8 @@ func genDictCase(cx *CheckCtx, i int, allowQualKeys bool) *Case {
 			v = st(mkLit(1000+j), op("%"), id("b"))
 		} else if r.Chance(10) {
 			v = st(id("v"), &Grp{Api: "Index", Args: []Arg{st(mkLit(1000 + j))}})
+		} else if partial && r.Chance(35) {
+			v = st(Qual{Path: pool.Paths[r.Intn(len(pool.Paths))], Name: fmt.Sprintf("V%d", 1000+j)})
 		}
 		d.Pairs = append(d.Pairs, [2]Arg{k, v})
 	}
@@ -630,7 +644,7 @@ func oracleC16(cx *CheckCtx, runs []*CaseRun) []Finding {
 					ktxt = rl.buildStmt(ks).GoString()
 				}
 			}
-			want = append(want, kvt{ktxt, rl.buildStmt(p[1].(*Stmt)).GoString()})
+			want = append(want, kvt{ktxt, qualValRe.ReplaceAllString(rl.buildStmt(p[1].(*Stmt)).GoString(), "\x00q.$1")})
 		}
 		var got []kvt
 		bad := false
@@ -640,7 +654,7 @@ func oracleC16(cx *CheckCtx, runs []*CaseRun) []Finding {
 				bad = true
 				break
 			}
-			got = append(got, kvt{nodeText(fset, kv.Key), nodeText(fset, kv.Value)})
+			got = append(got, kvt{nodeText(fset, kv.Key), qualValRe.ReplaceAllString(nodeText(fset, kv.Value), "\x00q.$1")})
 		}
 		if bad {
 			fs = append(fs, Finding{Property: "C16", Shape: "not-key-value", What: "composite literal body is not a list of key: value pairs", Case: cr.Case.Text(), Observed: trunc(obs.Out)})
